@@ -310,6 +310,42 @@ func (e *env[E, FE]) Additive(t T, c *pcase) {
 
 // ---- ISN ----------------------------------------------------------------------------------------------------
 
+// knownISNEmpty: ISN deals a holder that is in every maximal unqualified set a share with an
+// empty piece map; converting that share to additive form panics (index out of range).
+const knownISNEmpty = "C02-isn-empty-share-toadditive-panics"
+
+// ISNEmptyShareProbe deals over the case's structure and converts the share of holder h over the
+// full quorum; it reports (share is empty, conversion panicked).
+func (e *env[E, FE]) ISNEmptyShareProbe(t T, c *pcase, h int) (empty, panicked bool) {
+	t.Helper()
+	scheme, err := isn.NewFiniteScheme[FE](e.f, c.ac)
+	if err != nil {
+		t.Fatalf("%v: isn.NewFiniteScheme: %v", c, err)
+	}
+	out, err := scheme.Deal(isn.NewSecret(e.f.One()), vlib.NewPRNG(c.seed, "isn/known"))
+	if err != nil {
+		t.Fatalf("%v: isn Deal: %v", c, err)
+	}
+	sh, ok := out.Shares().Get(sharing.ID(c.ids[h]))
+	if !ok {
+		t.Fatalf("%v: no ISN share for %d", c, c.ids[h])
+	}
+	empty = sh.Value().Size() == 0
+	quorum, err := policy.UnanimityOf(c.ids, c.p.Full())
+	if err != nil {
+		t.Fatalf("quorum: %v", err)
+	}
+	func() {
+		defer func() {
+			if r := recover(); r != nil {
+				panicked = true
+			}
+		}()
+		_, _ = scheme.ConvertShareToAdditive(sh, quorum)
+	}()
+	return empty, panicked
+}
+
 func (e *env[E, FE]) ISN(t T, c *pcase) {
 	t.Helper()
 	f, q := e.f, e.q
@@ -321,6 +357,7 @@ func (e *env[E, FE]) ISN(t T, c *pcase) {
 		t.Fatalf("%v: isn.NewFiniteScheme: %v", c, err)
 	}
 	mus := c.p.MaximalUnqualified()
+	redundant := c.p.RedundantHolders()
 	type deal struct {
 		s      *big.Int
 		shares []*isn.Share[FE]
@@ -378,6 +415,12 @@ func (e *env[E, FE]) ISN(t T, c *pcase) {
 					t.Fatalf("%v: holder %d lacks the piece of %v", c, id, policy.Members(u))
 				}
 			}
+			if (len(held) == 0) != (redundant&(1<<uint(h)) != 0) {
+				t.Fatalf("%v: holder %d holds %d pieces, redundant holders are %b", c, id, len(held), redundant)
+			}
+			if len(held) == 0 {
+				vlib.Class(c.test, "isn.redundant-holder.share=empty")
+			}
 			d.shares[h] = sh
 		}
 		return d
@@ -424,6 +467,12 @@ func (e *env[E, FE]) ISN(t T, c *pcase) {
 			}
 			if len(members) >= 2 {
 				got, err := c.additiveSum(t, q, s, members, func(h int, quorum *unanimity.Unanimity) (*big.Int, error) {
+					if d.shares[h].Value().Size() == 0 {
+						// known finding: ToAdditive of an empty share panics. Empty <=> redundant holder
+						// (checked at dealing); such a holder is nobody's pivot, its part would be zero.
+						vlib.Excluded(knownISNEmpty)
+						return new(big.Int), nil
+					}
 					a, err := scheme.ConvertShareToAdditive(d.shares[h], quorum)
 					if err != nil {
 						return nil, err
@@ -469,9 +518,14 @@ func (e *env[E, FE]) ISN(t T, c *pcase) {
 		break
 	}
 	var anyVals map[bitset.ImmutableBitSet[sharing.ID]]FE
-	for k, v := range A.shares[0].Value().Iter() {
-		anyVals = map[bitset.ImmutableBitSet[sharing.ID]]FE{k: v}
-		break
+	for h := range c.ids {
+		for k, v := range A.shares[h].Value().Iter() {
+			anyVals = map[bitset.ImmutableBitSet[sharing.ID]]FE{k: v}
+			break
+		}
+		if anyVals != nil {
+			break
+		}
 	}
 	if fs, err := isn.NewShare(c.stranger(), anyVals); err == nil && anyVals != nil {
 		if sec, err := scheme.Reconstruct(append(append([]*isn.Share[FE]{}, all...), fs)...); err == nil {
@@ -581,11 +635,15 @@ func (e *env[E, FE]) Tassa(t T, c *pcase) {
 			}
 			s1, err1 := scheme.Reconstruct(pick(sum, members)...)
 			s2, err2 := scheme.Reconstruct(pick(scaled, members)...)
-			if err1 != nil || err2 != nil || lx.Big(s1.Value()).Cmp(sumMod(q, A.s, B.s)) != 0 {
-				t.Fatalf("%v over %s: tassa sum of shares over %v does not reconstruct to a+b (%v, %v)", c, e.name, ids, err1, err2)
+			if err1 != nil || lx.Big(s1.Value()).Cmp(sumMod(q, A.s, B.s)) != 0 {
+				t.Fatalf("%v over %s: tassa sum of shares over %v does not reconstruct to a+b (%v)", c, e.name, ids, err1)
 			}
-			if lx.Big(s2.Value()).Cmp(mulMod(q, A.s, k)) != 0 {
-				t.Fatalf("%v over %s: tassa %v·shares over %v reconstruct to %v", c, e.name, k, ids, lx.Big(s2.Value()))
+			if k.Sign() == 0 {
+				// known finding: 0·shares is the sharing of 0 by the zero polynomial, whose degree is
+				// below T_m-1, and tassa.Reconstruct refuses every polynomial of lower degree
+				vlib.Excluded(knownTassaDegree)
+			} else if err2 != nil || lx.Big(s2.Value()).Cmp(mulMod(q, A.s, k)) != 0 {
+				t.Fatalf("%v over %s: tassa %v·shares over %v reconstruct to %v (err %v)", c, e.name, k, ids, s2, err2)
 			}
 			got, err := c.additiveSum(t, q, s, members, func(h int, quorum *unanimity.Unanimity) (*big.Int, error) {
 				a, err := scheme.ConvertShareToAdditive(d.shares[h], quorum)
@@ -620,6 +678,35 @@ func (e *env[E, FE]) Tassa(t T, c *pcase) {
 	if sec, err := scheme.Reconstruct(append(append([]*tassa.Share[FE]{}, all...), all[0])...); err == nil {
 		t.Fatalf("%v: tassa Reconstruct with a repeated share returns %v", c, lx.Big(sec.Value()))
 	}
+}
+
+// knownTassaDegree: tassa.Reconstruct insists that the interpolated polynomial has degree exactly
+// T_m-1; shares scaled by 0 (or any combination whose top coefficient cancels) are refused.
+const knownTassaDegree = "C02-tassa-refuses-lower-degree"
+
+// TassaZeroScaleProbe deals, multiplies every share by 0 and reconstructs from all shareholders;
+// it returns the error (nil if the library returns the secret 0).
+func (e *env[E, FE]) TassaZeroScaleProbe(t T, c *pcase) (refused bool) {
+	t.Helper()
+	hac := c.ac.(*hierarchical.HierarchicalConjunctiveThreshold)
+	scheme, err := tassa.NewScheme(hac, e.f)
+	if err != nil {
+		t.Fatalf("%v: tassa.NewScheme: %v", c, err)
+	}
+	out, err := scheme.Deal(tassa.NewSecret(e.f.One()), vlib.NewPRNG(c.seed, "tassa/known"))
+	if err != nil {
+		t.Fatalf("%v: tassa Deal: %v", c, err)
+	}
+	var scaled []*tassa.Share[FE]
+	for _, id := range c.ids {
+		sh, _ := out.Shares().Get(sharing.ID(id))
+		scaled = append(scaled, sh.ScalarOp(e.f.Zero()))
+	}
+	sec, err := scheme.Reconstruct(scaled...)
+	if err == nil && !sec.Value().IsZero() {
+		t.Fatalf("%v: 0·shares reconstruct to %v", c, lx.Big(sec.Value()))
+	}
+	return err != nil
 }
 
 // TassaAdmission compares the library's accept/refuse decision with the verdict.
